@@ -212,23 +212,21 @@ def install(fault):
     return DS, BS
 
 
-def run_child(job):
-    """Body of the forked child.  Writes job['report'] unless killed."""
-    from panqec.codes import Toric2DCode
-    from panqec.error_models import PauliErrorModel
-    from panqec.decoders import MatchingDecoder
-    from panqec.simulation import BatchSimulation, DirectSimulation
-
-    fault = Fault(job['plan'], job['out'])
-    DS, BS = install(fault)
-    run_no = job['run_no']
+def run_session(jobs):
+    """Body of the forked child: a SESSION = the runs that happen in one
+    process on one BatchSimulation object (the first starts fresh, the others
+    call run() again on the same object).  After every run a report
+    <report>.<k> is written (unless the process was killed)."""
+    first = jobs[0]
+    state = {'fault': Fault(first['plan'], first['out']), 'run_no': first['run_no']}
+    DS, BS = install(state['fault'])
     sims = {}
 
     def stub_run_once(code, error_model, decoder, error_rate, rng=None):
         name = NAME_OF_RATE[error_rate]
         sim = sims[name]
-        tid = trial_id(run_no, name, sim.n_results + 1)
-        fault.armed = 4
+        tid = trial_id(state['run_no'], name, sim.n_results + 1)
+        state['fault'].armed = 4
         return {'error': None, 'syndrome': None, 'correction': None,
                 'effective_error': np.array([tid]), 'success': tid,
                 'codespace': tid}
@@ -236,46 +234,62 @@ def run_child(job):
     DS.run_once = stub_run_once
     code = Toric2DCode(2, 2)
     em = PauliErrorModel(1 / 3, 1 / 3, 1 / 3)
-    batch = BatchSimulation(job['out'], save_frequency=job['savefreq'],
+    batch = BatchSimulation(first['out'], save_frequency=first['savefreq'],
                             update_frequency=1000, verbose=False)
-    for name in job['spec']:
+    for name in first['spec']:
         dec = MatchingDecoder(code, em, RATES[name])
         sim = DirectSimulation(code, em, dec, RATES[name], verbose=False,
-                               compress=job['compressed'])
+                               compress=first['compressed'])
         hd = HookDict()
         for k, val in sim._results.items():
             hd[k] = val
         sim._results = hd
         sims[name] = sim
         batch.append(sim)
-    if fault.kind == 'kill' and fault.at == 'load':
-        os._exit(137)
-    outcome = 'done'
-    try:
-        batch.run(job['target'])
-        if fault.fired:
-            outcome = 'paused'
-    except BaseException as ex:          # noqa: the run did not complete
-        outcome = 'error:' + type(ex).__name__
-    mem = {}
-    for name, sim in sims.items():
-        r = sim._results
-        mem[name] = {
-            'ee': [int(np.asarray(x).ravel()[0]) for x in r['effective_error']],
-            'succ': [int(x) for x in r['success']],
-            'cs': [int(x) for x in r['codespace']],
-            'n': int(r['n_runs']),
-        }
-    with open(job['report'], 'w') as f:
-        json.dump({'outcome': outcome, 'mem': mem, 'fired': fault.fired,
-                   'nsteps': fault.nsteps, 'nsaves': fault.nsaves}, f)
+    for k, job in enumerate(jobs):
+        if k > 0:
+            # a new run on the same object: new fault plan, counters restart
+            f = state['fault']
+            f.kind, f.at, f.n = job['plan']['kind'], job['plan']['at'], job['plan']['n']
+            f.nsteps = f.nsaves = 0
+            f.fired = False
+            f.armed = 0
+            state['run_no'] = job['run_no']
+        fault = state['fault']
+        if fault.kind == 'kill' and fault.at == 'load':
+            os._exit(137)
+        outcome = 'done'
+        try:
+            batch.run(job['target'])
+            if fault.fired:
+                outcome = 'paused'
+        except BaseException as ex:          # noqa: the run did not complete
+            outcome = 'error:' + type(ex).__name__
+        mem = {}
+        for name, sim in sims.items():
+            r = sim._results
+            mem[name] = {
+                'ee': [int(np.asarray(x).ravel()[0]) for x in r['effective_error']],
+                'succ': [int(x) for x in r['success']],
+                'cs': [int(x) for x in r['codespace']],
+                'n': int(r['n_runs']),
+            }
+        with open(f"{first['report']}.{k}", 'w') as fh:
+            json.dump({'outcome': outcome, 'mem': mem, 'fired': fault.fired,
+                       'nsteps': fault.nsteps, 'nsaves': fault.nsaves,
+                       'disk': project_disk(first['out'], first['compressed'])}, fh)
+        if outcome.startswith('error'):
+            break
 
 
-def spawn(job):
-    """Fork, run the job in the child, return (exit status, report|None)."""
+def spawn(jobs):
+    """Fork, run the session in the child, return (exit status, [report per
+    run that ended inside the process])."""
     import sys
-    if os.path.exists(job['report']):
-        os.remove(job['report'])
+    import glob
+    base = jobs[0]['report']
+    for f in glob.glob(base + '.*'):
+        os.remove(f)
     sys.stdout.flush()
     sys.stderr.flush()
     pid = os.fork()
@@ -284,21 +298,23 @@ def spawn(job):
         try:
             devnull = os.open(os.devnull, os.O_WRONLY)
             os.dup2(devnull, 1)
-            run_child(job)
+            run_session(jobs)
         except BaseException:            # noqa
             import traceback
-            with open(job['report'] + '.err', 'w') as f:
+            with open(base + '.err', 'w') as f:
                 traceback.print_exc(file=f)
             code = 3
         finally:
             os._exit(code)
     _, status = os.waitpid(pid, 0)
     rc = os.waitstatus_to_exitcode(status)
-    rep = None
-    if os.path.exists(job['report']):
-        with open(job['report']) as f:
-            rep = json.load(f)
-    return rc, rep
+    reps = []
+    for k in range(len(jobs)):
+        f = f'{base}.{k}'
+        if os.path.exists(f):
+            with open(f) as fh:
+                reps.append(json.load(fh))
+    return rc, reps
 
 
 def project_disk(path, compressed):
